@@ -72,7 +72,7 @@ func (v *ValSpec) Len() int {
 	switch v.Kind {
 	case "none":
 		return 0
-	case "str16", "bytesN", "rawstr", "cpbytes":
+	case "str16", "bytesN", "rawstr", "cpbytes", "optbytes":
 		return len(v.Strs)
 	}
 	return len(v.Ints)
@@ -106,6 +106,8 @@ func (v *ValSpec) Encoder() encode.Encoder {
 		return RawStr{}
 	case "cpbytes":
 		return CopyBytes{}
+	case "optbytes":
+		return OptBytes{}
 	case "bytesN":
 		return encode.Bytes{Size: v.N}
 	case "defI64":
@@ -212,6 +214,17 @@ func (v *ValSpec) Slice() interface{} {
 			s[i] = []byte(v.Strs[i])
 		}
 		return s
+	case "optbytes":
+		s := make([][]byte, n)
+		for i := range s {
+			if v.Strs[i] != optNil {
+				s[i] = []byte(v.Strs[i])
+				if s[i] == nil {
+					s[i] = []byte{}
+				}
+			}
+		}
+		return s
 	case "structLE", "structBE":
 		s := make([]TStruct, n)
 		for i := range s {
@@ -226,7 +239,7 @@ func (v *ValSpec) Slice() interface{} {
 // (what the historical layouts require).
 func (v *ValSpec) FixedSize() bool {
 	switch v.Kind {
-	case "none", "str16", "rawstr", "cpbytes":
+	case "none", "str16", "rawstr", "cpbytes", "optbytes":
 		return false
 	}
 	return true
@@ -273,6 +286,11 @@ func (v *ValSpec) At(i int) interface{} {
 		return v.Strs[i]
 	case "bytesN", "cpbytes":
 		return []byte(v.Strs[i])
+	case "optbytes":
+		if v.Strs[i] == optNil {
+			return []byte(nil)
+		}
+		return []byte(v.Strs[i])
 	case "structLE", "structBE":
 		return structOf(v.Ints[i])
 	}
@@ -307,6 +325,11 @@ func (v *ValSpec) RefEnc(i int) []byte {
 		return []byte(v.Strs[i])
 	case "cpbytes":
 		return append([]byte{byte(len(v.Strs[i]))}, v.Strs[i]...)
+	case "optbytes":
+		if v.Strs[i] == optNil {
+			return []byte{0xff, 0xff}
+		}
+		return append([]byte{byte(len(v.Strs[i]) >> 8), byte(len(v.Strs[i]))}, v.Strs[i]...)
 	case "structLE", "structBE":
 		return refStruct(structOf(v.Ints[i]), v.Kind == "structBE")
 	}
@@ -365,7 +388,7 @@ func (v *ValSpec) Describe(max int) interface{} {
 	switch v.Kind {
 	case "none":
 		return nil
-	case "str16", "bytesN", "rawstr", "cpbytes":
+	case "str16", "bytesN", "rawstr", "cpbytes", "optbytes":
 		out := []string{}
 		for i, s := range v.Strs {
 			if i >= max {
@@ -482,7 +505,7 @@ func genVals(r *RNG, kind string, n int, style int) *ValSpec {
 	}
 	ids := runPattern(r, n, style)
 	switch kind {
-	case "str16", "rawstr", "cpbytes":
+	case "str16", "rawstr", "cpbytes", "optbytes":
 		v.Strs = make([]string, n)
 		var cur string
 		for i := 0; i < n; i++ {
@@ -508,6 +531,9 @@ func genVals(r *RNG, kind string, n int, style int) *ValSpec {
 						}
 					}
 					s := string(r.Bytes(l))
+					if kind == "optbytes" && r.Chance(1, 4) {
+						s = optNil // an absent (nil) element
+					}
 					if i == 0 || s != cur || tries > 50 {
 						if i > 0 && s == cur {
 							s += "x"
@@ -621,7 +647,41 @@ func sameEnc(kind string, a, b int64) bool {
 	return a == b
 }
 
-var allValKinds = []string{"none", "i8", "i16", "i32", "i64", "u16", "u32", "u64", "int", "str16", "bytesN", "structLE", "structBE", "rawstr", "defI64", "cpbytes", "f64"}
+var allValKinds = []string{"none", "i8", "i16", "i32", "i64", "u16", "u32", "u64", "int", "str16", "bytesN", "structLE", "structBE", "rawstr", "defI64", "cpbytes", "f64", "optbytes"}
+
+// OptBytes: a user-defined encoder for optional byte strings. The element type
+// is []byte and nil is a value of its own ("no value recorded"), encoded as the
+// marker ff ff; everything else as a big-endian 16-bit length and the bytes.
+type OptBytes struct{}
+
+const optNil = "\x00\x00<nil element>\x00"
+
+func (OptBytes) Encode(d interface{}) []byte {
+	b := d.([]byte)
+	if b == nil {
+		return []byte{0xff, 0xff}
+	}
+	return append([]byte{byte(len(b) >> 8), byte(len(b))}, b...)
+}
+func (OptBytes) Decode(b []byte) (int, interface{}) {
+	if b[0] == 0xff && b[1] == 0xff {
+		return 2, []byte(nil)
+	}
+	n := int(b[0])<<8 | int(b[1])
+	return 2 + n, append([]byte{}, b[2:2+n]...)
+}
+func (OptBytes) GetSize(d interface{}) int {
+	if d.([]byte) == nil {
+		return 2
+	}
+	return 2 + len(d.([]byte))
+}
+func (OptBytes) GetEncodedSize(b []byte) int {
+	if b[0] == 0xff && b[1] == 0xff {
+		return 2
+	}
+	return 2 + (int(b[0])<<8 | int(b[1]))
+}
 
 // PassBytes: a user-defined variable-size encoder that hands the caller's
 // bytes through unchanged (C20: the builder must copy them).
